@@ -217,12 +217,14 @@ def run(prop_id, tier, seed, procs, budget=None, only_slice=None):
         if not os.environ.get("VERIF_REPO_SRC"):
             EVIDENCE_DIR = os.path.join(os.environ.get("VERIF_SCRATCH_OUT", "/tmp/verif-scratch-out"), "evidence")
     # plan: list of shard dicts, each with key "slice"
+    # operation histories ("session" shards) are long and serial: they are handed out first so that they overlap with the
+    # many short shards instead of trailing them; the seed only rotates the order within the two groups
+    first = [i for i, sh in enumerate(plan) if sh.get("session")]
+    rest = [i for i, sh in enumerate(plan) if not sh.get("session")]
     if seed:
-        # the seed only rotates the order in which shards are handed out
-        k = seed % max(1, len(plan))
-        order = list(range(k, len(plan))) + list(range(0, k))
-    else:
-        order = list(range(len(plan)))
+        k1, k2 = seed % max(1, len(first)), seed % max(1, len(rest))
+        first, rest = first[k1:] + first[:k1], rest[k2:] + rest[:k2]
+    order = first + rest
     if budget is None:
         budget = getattr(mod, "BUDGET", {}).get(tier, 3600 if tier == "thorough" else 600)
     deadline = t0 + budget
